@@ -9,7 +9,12 @@ use std::error;
 use std::fmt;
 use std::future::Future;
 use std::marker::PhantomData;
+#[cfg(not(nexosim_verif))]
 use std::sync::atomic::{self, AtomicUsize, Ordering};
+#[cfg(nexosim_verif)]
+use crate::verif::sync::atomic::{self, AtomicUsize, Ordering};
+#[cfg(nexosim_verif_shuttle)]
+use crate::verif::LocalKeyCellExt as _;
 use std::sync::Arc;
 
 use async_event::Event;
@@ -27,7 +32,10 @@ use crate::model::{Context, Model};
 // This is used by the executor to make sure that all messages have been
 // received upon completion of a simulation step, i.e. that no deadlock
 // occurred.
+#[cfg(not(nexosim_verif))]
 thread_local! { pub(crate) static THREAD_MSG_COUNT: Cell<isize> = const { Cell::new(0) }; }
+#[cfg(nexosim_verif)]
+crate::verif::thread_local! { pub(crate) static THREAD_MSG_COUNT: Cell<isize> = const { Cell::new(0) }; }
 
 /// Data shared between the receiver and the senders.
 struct Inner<M> {
@@ -39,6 +47,9 @@ struct Inner<M> {
     sender_signal: Event,
     /// Current count of live senders.
     sender_count: AtomicUsize,
+    /// Simulator-chosen channel identifier (0 if the address is to be used).
+    #[cfg(nexosim_verif)]
+    verif_id: usize,
 }
 
 impl<M: 'static> Inner<M> {
@@ -48,6 +59,8 @@ impl<M: 'static> Inner<M> {
             receiver_signal: DiatomicWaker::new(),
             sender_signal: Event::new(),
             sender_count: AtomicUsize::new(0),
+            #[cfg(nexosim_verif)]
+            verif_id: crate::verif::next_channel_id(),
         }
     }
 }
@@ -120,6 +133,9 @@ impl<M: Model> Receiver<M> {
 
         match msg {
             Some(mut msg) => {
+                #[cfg(nexosim_verif)]
+                crate::verif::trace(crate::verif::TraceEvent::Popped(self.channel_id().0));
+
                 // Decrement the count of in-flight messages.
                 THREAD_MSG_COUNT.set(THREAD_MSG_COUNT.get().wrapping_sub(1));
 
@@ -172,6 +188,11 @@ impl<M: Model> Receiver<M> {
     /// time, but an identifier may be reused after all handles to a channel
     /// have been dropped.
     pub(crate) fn channel_id(&self) -> ChannelId {
+        #[cfg(nexosim_verif)]
+        if self.inner.verif_id != 0 {
+            return ChannelId(self.inner.verif_id);
+        }
+
         ChannelId(&*self.inner as *const Inner<M> as usize)
     }
 }
@@ -226,6 +247,9 @@ impl<M: Model> Sender<M> {
                 match self.inner.queue.push(msg_fn.take().unwrap()) {
                     Ok(()) => Some(true),
                     Err(PushError::Full(m)) => {
+                        #[cfg(nexosim_verif)]
+                        crate::verif::probe(crate::verif::Probe::PushFull);
+
                         // Recycle the message.
                         msg_fn = Some(m);
 
@@ -237,6 +261,9 @@ impl<M: Model> Sender<M> {
             .await;
 
         if success {
+            #[cfg(nexosim_verif)]
+            crate::verif::trace(crate::verif::TraceEvent::Pushed(self.channel_id()));
+
             self.inner.receiver_signal.notify();
 
             // Increment the count of in-flight messages.
@@ -277,6 +304,11 @@ impl<M: Model> Sender<M> {
     /// time, but an identifier may be reused after all handles to a channel
     /// have been dropped.
     pub(crate) fn channel_id(&self) -> usize {
+        #[cfg(nexosim_verif)]
+        if self.inner.verif_id != 0 {
+            return self.inner.verif_id;
+        }
+
         Arc::as_ptr(&self.inner) as usize
     }
 }
